@@ -7,6 +7,7 @@ use crate::topics::topic_message::{MessageId, TopicMessage};
 use crate::topics::TopicInfo;
 use std::collections::hash_map::Entry;
 use std::collections::HashMap;
+use std::sync::atomic::{AtomicBool, Ordering};
 use std::sync::Arc;
 use std::time::SystemTime;
 use tokio::sync::{mpsc, oneshot};
@@ -67,6 +68,9 @@ pub struct TopicActor {
 
     /// Whether the topic has been deleted.
     deleted: bool,
+
+    /// Tells holders of the `Topic` handle that the topic has been deleted.
+    deleted_flag: Arc<AtomicBool>,
 }
 
 impl TopicActor {
@@ -74,6 +78,7 @@ impl TopicActor {
         delegate: TopicManagerDelegate,
         info: TopicInfo,
         topic_internal_id: u32,
+        deleted_flag: Arc<AtomicBool>,
     ) -> mpsc::Sender<TopicRequest> {
         let (sender, mut receiver) = mpsc::channel(16);
         let mut actor = Self {
@@ -84,6 +89,7 @@ impl TopicActor {
             next_message_id: 0,
             subscriptions: Default::default(),
             deleted: false,
+            deleted_flag,
         };
 
         tokio::spawn(async move {
@@ -251,6 +257,7 @@ impl TopicActor {
 
         // Mark the topic as deleted.
         self.deleted = true;
+        self.deleted_flag.store(true, Ordering::Release);
 
         // Remove all subscriptions.
         self.subscriptions.clear();
